@@ -159,7 +159,7 @@ def run(pid, tier, seed):
     t0 = time.time()
     if shifted([("Error", "X", 5, 1), ("Error", "Y", 2, 1)], 3, 1) != [("Error", "X", 6, 1), ("Error", "Y", 2, 1)]:
         raise core.HarnessError("shift self-test failed")
-    shards, n = (8, 40) if tier == "quick" else (16, 1500)
+    shards, n = (16, 60) if tier == "quick" else (16, 1500)
     camp = core.Campaign()
     for name, rc in core.regress_cases(pid):
         for k, what in replay(pid, rc["case"]):
